@@ -906,6 +906,24 @@ package spec
 //@ define strElemsKept(parentRefs []string) bool = forall arr ptr, i int :: allocated(arr)
 //@       && !(arr == sliceArr(parentRefs) && i >= sliceOff(parentRefs) + len(parentRefs)) ==> memStr(elemAddr(arr, i)) == old(memStr(elemAddr(arr, i)))
 
+// ---- traversal completeness (C03, C02): esDone is the set of schema values returned so far by a successful call of the
+// schema recursion (expandSchema / expandSchemaRef / expandItems); it only grows.  Every sub-schema position of a
+// successfully expanded schema must hold such a value: it was visited, and the result was stored back.
+//@ ghost esDone smt:(Array Int Bool)
+// the key of a schema value: a function of the members that tell an expanded schema from the one it replaces
+//@ specfn skeyOf(ptr, string, string, string, []string, ptr, ptr, []Schema, []Schema, []Schema, ptr) int
+//@ define skey(s Schema) int = skeyOf(s.Ref.referenceURL, s.ID, s.Title, s.Description, s.Type, s.Properties, s.Items, s.AllOf, s.AnyOf, s.OneOf, s.Not)
+//@ define itemsDone(s Schema) bool = s.Items != nil ==> (s.Items.Schema != nil ==> esDone[skey(*s.Items.Schema)])
+//@        && (forall i int :: triggers(addr(s.Items.Schemas[i])) && (0 <= i && i < len(s.Items.Schemas) ==> esDone[skey(s.Items.Schemas[i])]))
+//@ define sliceDone(c []Schema, n int) bool = forall i int :: triggers(addr(c[i])) && (0 <= i && i < n ==> esDone[skey(c[i])])
+//@ define mapDone(m map[string]Schema) bool = forall k string :: triggers(has(m, k), m[k]) && (has(m, k) ==> esDone[skey(m[k])])
+//@ define notDone(s Schema) bool = s.Not != nil ==> esDone[skey(*s.Not)]
+//@ define addPropsDone(s Schema) bool = s.AdditionalProperties != nil && s.AdditionalProperties.Schema != nil ==> esDone[skey(*s.AdditionalProperties.Schema)]
+//@ define addItemsDone(s Schema) bool = s.AdditionalItems != nil && s.AdditionalItems.Schema != nil ==> esDone[skey(*s.AdditionalItems.Schema)]
+// the positions expandSchema has finished with when it reaches stage n of its walk (dependencies are not tracked)
+//@ define doneUpTo(s Schema, stage int) bool = (stage >= 1 ==> mapDone(s.Definitions) && itemsDone(s)) && (stage >= 2 ==> sliceDone(s.AllOf, len(s.AllOf)))
+//@        && (stage >= 3 ==> sliceDone(s.AnyOf, len(s.AnyOf))) && (stage >= 4 ==> sliceDone(s.OneOf, len(s.OneOf)) && notDone(s))
+//@        && (stage >= 5 ==> mapDone(s.Properties) && addPropsDone(s)) && (stage >= 6 ==> mapDone(s.PatternProperties)) && (stage >= 7 ==> addItemsDone(s))
 //@ func expandItems
 //@   strings  uninterpreted
 //@   property C04, C08, C03, C18
@@ -927,12 +945,25 @@ package spec
 //@   loop 0 invariant forall i int :: 0 <= i && i < len(parentRefs) ==> parentRefs[i] == old(parentRefs[i])
 //@   loop 0 invariant forall l *schemaLoader :: allocated(l) ==> l.root == old(l.root) && l.options == old(l.options) && l.cache == old(l.cache) && l.context == old(l.context)
 //@   loop 0 invariant strElemsKept(parentRefs)
+//@   defines  result1 == nil ==> esDone[skey(*result0)]
+//@   defines  forall x int :: old(esDone[x]) ==> esDone[x]
+//@   ensures  [C03,C02] same-schema-returned @@ result1 == nil ==> *result0 == target
+//@   ensures  [C03,C02] items-visited @@ old(strict(resolver)) && result1 == nil ==> itemsDone(*result0)
+//@   ensures  [C03,C02] definitions-domain-kept @@ forall k string :: triggers(has(target.Definitions, k)) && (has(target.Definitions, k) == old(has(target.Definitions, k)))
+//@   loop 0 invariant [C03,C02] forall k string :: triggers(has(target.Definitions, k)) && (has(target.Definitions, k) == old(has(target.Definitions, k)))
+//@   ensures  [C03,C02] definitions-marks-kept @@ forall k string :: triggers(has(target.Definitions, k)) && (has(target.Definitions, k) && old(esDone[skey(target.Definitions[k])]) ==> esDone[skey(target.Definitions[k])])
+//@   loop 0 invariant [C03,C02] forall k string :: triggers(has(target.Definitions, k)) && (has(target.Definitions, k) && old(esDone[skey(target.Definitions[k])]) ==> esDone[skey(target.Definitions[k])])
+//@   loop 0 invariant [C03,C02] cur_target.Items == target.Items && (forall j int :: triggers(addr(target.Items.Schemas[j])) && (0 <= j && j <= $i0 - 1 ==> esDone[skey(target.Items.Schemas[j])]))
+//@   loop 0 invariant [C03,C02] forall x int :: old(esDone[x]) ==> esDone[x]
+//@   loop 0 invariant [C03,C02] old(strict(resolver)) && target.Items.Schema != nil ==> esDone[skey(*target.Items.Schema)]
 
 // the scope a schema's own $ref is read in: its id when it has one, else the scope it is met in
 //@ define scopeOf(id string, basePath string) string = id != "" ? normURI((hasSuffix(id, "/") ? id + "placeholder.json" : id), basePath) : basePath
 //@ func expandSchema
 //@   strings  uninterpreted
 //@   property C04, C08, C03, C18
+//@   defines  result1 == nil ==> esDone[skey(*result0)]
+//@   defines  forall x int :: old(esDone[x]) ==> esDone[x]
 //@   requires wfResolver(resolver) && canonBase(basePath) && distinctStr(parentRefs)
 //@   assumes  [C04] ids-canonical @@ target.ID != "" ==> canonBase(normURI((hasSuffix(target.ID, "/") ? target.ID + "placeholder.json" : target.ID), basePath))
 //@   ensures  [C04] result-shape @@ result1 == nil ==> result0 != nil
@@ -945,6 +976,28 @@ package spec
 //@   ensures  [C03] memo-monotone @@ forall k string :: old(has(resolver.context.circulars, k)) ==> has(resolver.context.circulars, k)
 //@   ensures  loaders-immutable @@ forall l *schemaLoader :: allocated(l) ==> l.root == old(l.root) && l.options == old(l.options) && l.cache == old(l.cache) && l.context == old(l.context)
 //@   ensures  string-elements-kept @@ strElemsKept(parentRefs)
+//@   ensures  [C03,C02] definitions-visited @@ old(strict(resolver)) && result1 == nil && old(refStringV(target.Ref)) == "" && !old(isRootV(target.Ref)) ==> mapDone(result0.Definitions)
+//@   ensures  [C03,C02] properties-visited @@ old(strict(resolver)) && result1 == nil && old(refStringV(target.Ref)) == "" && !old(isRootV(target.Ref)) ==> mapDone(result0.Properties)
+//@   ensures  [C03,C02] pattern-properties-visited @@ old(strict(resolver)) && result1 == nil && old(refStringV(target.Ref)) == "" && !old(isRootV(target.Ref)) ==> mapDone(result0.PatternProperties)
+//@   loop 0 invariant [C03,C02] forall x int :: old(esDone[x]) ==> esDone[x]
+//@   loop 0 invariant [C03,C02] old(strict(resolver)) ==> (forall k string :: triggers($seen0[k]) && ($seen0[k] ==> esDone[skey(cur_target.Definitions[k])]))
+//@   loop 1 invariant [C03,C02] forall x int :: old(esDone[x]) ==> esDone[x]
+//@   loop 2 invariant [C03,C02] forall x int :: old(esDone[x]) ==> esDone[x]
+//@   loop 3 invariant [C03,C02] forall x int :: old(esDone[x]) ==> esDone[x]
+//@   loop 4 invariant [C03,C02] forall x int :: old(esDone[x]) ==> esDone[x]
+//@   loop 5 invariant [C03,C02] forall x int :: old(esDone[x]) ==> esDone[x]
+//@   loop 6 invariant [C03,C02] forall x int :: old(esDone[x]) ==> esDone[x]
+//@   loop 1 invariant [C03,C02] old(strict(resolver)) ==> mapDone(cur_target.Definitions)
+//@   loop 2 invariant [C03,C02] old(strict(resolver)) ==> mapDone(cur_target.Definitions)
+//@   loop 3 invariant [C03,C02] old(strict(resolver)) ==> mapDone(cur_target.Definitions)
+//@   loop 4 invariant [C03,C02] old(strict(resolver)) ==> mapDone(cur_target.Definitions)
+//@   loop 4 invariant [C03,C02] old(strict(resolver)) ==> (forall k string :: triggers($seen4[k]) && ($seen4[k] ==> esDone[skey(cur_target.Properties[k])]))
+//@   loop 5 invariant [C03,C02] old(strict(resolver)) ==> mapDone(cur_target.Definitions)
+//@   loop 5 invariant [C03,C02] old(strict(resolver)) ==> mapDone(cur_target.Properties)
+//@   loop 5 invariant [C03,C02] old(strict(resolver)) ==> (forall k string :: triggers($seen5[k]) && ($seen5[k] ==> esDone[skey(cur_target.PatternProperties[k])]))
+//@   loop 6 invariant [C03,C02] old(strict(resolver)) ==> mapDone(cur_target.Definitions)
+//@   loop 6 invariant [C03,C02] old(strict(resolver)) ==> mapDone(cur_target.Properties)
+//@   loop 6 invariant [C03,C02] old(strict(resolver)) ==> mapDone(cur_target.PatternProperties)
 //@   ensures  [C09] skip-schemas-rebases-in-scope @@ old(resolver.options.SkipSchemas) && old(refStringV(target.Ref)) != "" && result1 == nil ==>
 //@               refStringV(result0.Ref) == denormStr(canonStr(normURI(old(refStringV(target.Ref)), scopeOf(target.ID, basePath))), resolver.context.basePath, resolver.context.rootID)
 //@   ensures  stack-kept @@ forall i int :: 0 <= i && i < len(parentRefs) ==> parentRefs[i] == old(parentRefs[i])
@@ -987,6 +1040,8 @@ package spec
 //@ func expandSchemaRef
 //@   strings  uninterpreted
 //@   property C04, C08, C03, C18
+//@   defines  result1 == nil ==> esDone[skey(*result0)]
+//@   defines  forall x int :: old(esDone[x]) ==> esDone[x]
 //@   appendview
 //@   requires wfResolver(resolver) && canonBase(basePath) && distinctStr(parentRefs)
 //@   requires refStringV(target.Ref) != ""
